@@ -5,3 +5,14 @@ Lemma tie_MaxStringSize : f_MaxStringSize = MaxStringSize. Proof. reflexivity. Q
 Lemma tie_rawValueMaxSize : f_rawValueMaxSize = rawValueMaxSize. Proof. reflexivity. Qed.
 Lemma tie_listValueMaxSize : f_listValueMaxSize = listValueMaxSize. Proof. reflexivity. Qed.
 Lemma tie_MaxPayloadSize : f_MaxPayloadSize = MaxPayloadSize. Proof. reflexivity. Qed.
+
+(* the source files the models used by this property transliterate have not been rewritten since the models
+   were read against them (per-function digests, see WireSrcPins.v) *)
+From QV Require Import WireSrcPins.
+Lemma tie_src_reader_go : f_src_reader_go = pin_src_reader_go. Proof. reflexivity. Qed.
+Lemma tie_src_encoding_go : f_src_encoding_go = pin_src_encoding_go. Proof. reflexivity. Qed.
+Lemma tie_src_value_go : f_src_value_go = pin_src_value_go. Proof. reflexivity. Qed.
+Lemma tie_src_basic_go : f_src_basic_go = pin_src_basic_go. Proof. reflexivity. Qed.
+Lemma tie_src_message_go : f_src_message_go = pin_src_message_go. Proof. reflexivity. Qed.
+Lemma tie_src_metaobject_gen_go : f_src_metaobject_gen_go = pin_src_metaobject_gen_go. Proof. reflexivity. Qed.
+Lemma tie_src_authenticate_go : f_src_authenticate_go = pin_src_authenticate_go. Proof. reflexivity. Qed.
